@@ -39,8 +39,10 @@ def hostile_name(rng: random.Random) -> str:
         return gen.path_name(rng)
     if r < 0.75:
         return gen.unicode_name(rng, controls=True, max_len=40)
-    if r < 0.8:
-        return rng.choice(['bob', '../bob', '../../base/bob', 'bob/INBOX',
+    if r < 0.83:
+        return rng.choice(['INBOX/', 'INBOX//', 'inbox/', '/INBOX', 'INBOX/.',
+                           'INBOX/..', 'INBOX/../bob', 'Inbox/', 'INBOX/ ',
+                           'bob', '../bob', '../../base/bob', 'bob/INBOX',
                            '../pymap-etc-passwd', '.', '..', '', '/',
                            '../bob/.Secret', '../bob/Secret', '.bob',
                            '../../../../../../../../tmp/vf-escape'])
